@@ -1360,3 +1360,31 @@ Proof.
   rewrite Hc', Hc, Hr'. cbn [Run_Hub.optN_eqb]. rewrite N.eqb_refl. cbn [andb].
   destruct (s_room s) as [k|]; cbn [opt_pair_eqb]; [rewrite pair_eqb_refl|]; apply orb_true_r.
 Qed.
+
+(* ------------------------------------------------------------------ not vacuous *)
+(* two clients in room 1; the connection of session 2 is cut: session 2 waits for expiry, without connection, out of
+   the clients table; a tick of 20 s leaves everything as it is; session 2 resumes on connection 3: in the clients
+   table, not expiring, connection 3 attached to it; a tick of 40 s: both connected sessions are still there with
+   their connections, in their room.  Without the resume the tick of 40 s ends session 2; and a connected session that
+   is in the anonymous list (user 0, in no room) is ended by it: the exception in connected_survives_tick *)
+Definition at_ops : list op :=
+  [OConnect 1 0; OConnect 2 0; OHello 1 (HV1 0 1 false); OHello 2 (HV1 0 2 false); OJoin 1 1 1 (RepOk None 0);
+   OJoin 2 1 2 (RepOk None 0); ODrop 2].
+Definition at_resume : list op := [OTick 20; OConnect 3 0; OHello 3 (HResume (IdPriv 2))].
+Definition at_view (h : hub) :=
+  (h_clients h, h_expired h, h_anonymous h, map (fun e => (fst e, c_sess (snd e), c_expect (snd e))) (h_conns h),
+   map (fun e => (fst e, s_conn (snd e), s_room (snd e))) (h_sessions h)).
+Example at_example :
+  at_view (run (init [0; 0] false) at_ops) =
+    ([1], [2], [], [(1, Some 1, false)], [(1, Some 1, Some (0, 1)); (2, None, Some (0, 1))]) /\
+  at_view (run (init [0; 0] false) (at_ops ++ [OTick 20])) = at_view (run (init [0; 0] false) at_ops) /\
+  at_view (run (init [0; 0] false) (at_ops ++ at_resume)) =
+    ([1; 2], [], [], [(1, Some 1, false); (3, Some 2, false)], [(1, Some 1, Some (0, 1)); (2, Some 3, Some (0, 1))]) /\
+  at_view (run (init [0; 0] false) (at_ops ++ at_resume ++ [OTick 40])) = at_view (run (init [0; 0] false) (at_ops ++ at_resume)) /\
+  at_view (run (init [0; 0] false) (at_ops ++ [OTick 40])) =
+    ([1], [], [], [(1, Some 1, false)], [(1, Some 1, Some (0, 1))]) /\
+  at_view (run (init [0; 0] false) (at_ops ++ [OConnect 5 0; OHello 5 (HV1 0 0 false)])) =
+    ([1; 3], [2], [3], [(1, Some 1, false); (5, Some 3, false)], [(1, Some 1, Some (0, 1)); (2, None, Some (0, 1)); (3, Some 5, None)]) /\
+  at_view (run (init [0; 0] false) (at_ops ++ [OConnect 5 0; OHello 5 (HV1 0 0 false); OTick 40])) =
+    ([1], [], [], [(1, Some 1, false)], [(1, Some 1, Some (0, 1))]).
+Proof. vm_compute. repeat split; reflexivity. Qed.
